@@ -244,8 +244,22 @@ impl Interp {
     }
 }
 
+thread_local! {
+    /// C16 reuses these histories but judges heap order only (anything else belongs to C03)
+    static HEAP_ONLY: std::cell::Cell<bool> = std::cell::Cell::new(false);
+}
+
 fn check_slot(s: &Slot, step: usize, what: &str) -> Result<Walk, Violation> {
     let w = walk(&s.t.root);
+    if HEAP_ONLY.with(|h| h.get()) {
+        vensure!(
+            w.edges_le == w.edges || w.edges_ge == w.edges,
+            "heap-order",
+            "step {} ({}): priorities are not heap-ordered in one direction: {} edges, {} with parent<=child, {} with parent>=child",
+            step, what, w.edges, w.edges_le, w.edges_ge
+        );
+        return Ok(w);
+    }
     vensure!(
         w.seq == s.m,
         "sequence",
@@ -271,6 +285,22 @@ fn check_slot(s: &Slot, step: usize, what: &str) -> Result<Walk, Violation> {
         step, what, w.edges, w.edges_le, w.edges_ge
     );
     Ok(w)
+}
+
+/// The same histories judged on heap order alone (C16): every other oracle is switched off, and a
+/// functional mismatch of a returned value (C03's business) ends the case without a verdict.
+pub fn run_case_heap_only(case: &Case) -> CaseResult {
+    HEAP_ONLY.with(|h| h.set(true));
+    let r = run_case(case);
+    HEAP_ONLY.with(|h| h.set(false));
+    match r {
+        Err(v) if v.sig != "heap-order" => {
+            let mut st = CaseStats::default();
+            st.label("ended-early-on-a-non-heap-mismatch");
+            Ok(st)
+        }
+        other => other,
+    }
 }
 
 pub fn run_case(case: &Case) -> CaseResult {
